@@ -208,13 +208,93 @@ pub fn campaigns(ctx: &Ctx) -> Stats {
     let ucases = unary_cases(&ushapes);
     st.merge(ctx.run_indexed("unary-all-shapes", ucases.len() as u64, Some("every unary operation and parameterisation (11 powf exponents, sum(k) for every k, reshape to every factorisation) on all shapes of rank<=3 (quick) / <=4 (thorough), sizes 1..3"), |i| Some(ucases[i as usize].clone())));
     // element-wise binary operations over all admissible pairs
-    let pairs = admissible_pairs(&all_shapes(t.pick(3, 4), 3));
+    let pairs = admissible_pairs(&t.pick(quick_shapes(), all_shapes(4, 3)));
     let np = pairs.len() as u64;
-    st.merge(ctx.run_indexed("elementwise-all-pairs", np * 5 * 3, Some("add, sub, mul, div, axpy on all broadcast-compatible ordered shape pairs of rank<=3 (quick) / <=4 (thorough), sizes 1..3, each tracked subset"), |i| {
+    st.merge(ctx.run_indexed("elementwise-all-pairs", np * 5 * 3 * 2, Some("add, sub, mul, div, axpy on all broadcast-compatible ordered shape pairs (rank<=3 sizes<=3 plus rank 4 sizes<=2 quick; rank<=4 sizes<=3 thorough), each tracked subset, with a non-uniform seed and with the omitted (uniform) seed"), |i| {
+        let with_seed = i % 2 == 0;
+        let i = i / 2;
         let tri = (i % 3) as usize;
         let opi = ((i / 3) % 5) as usize;
-        Some(ew_case(&pairs[(i / 15) as usize], opi, tri, true))
+        Some(ew_case(&pairs[(i / 15) as usize], opi, tri, with_seed))
     }));
+    // value patterns (zeros, ones, equal, zero-sum, one-hot, exact zeros in between, powers of two) and sizes around
+    // typical block lengths, for every operation with a derivative
+    {
+        use OpKind::*;
+        let unary = [Neg, ScaleR(1.0), ScaleR(0.0), ScaleL(-3.0), Powf(2.0), Powf(3.0), Powf(1.0), Exp, Sigmoid, Softmax, Relu, Sum(1), Sum(2), Reshape(vec![0])];
+        let shapes: Vec<Vec<usize>> = vec![vec![4], vec![2, 3], vec![3, 1, 2], vec![2, 2, 2, 2]];
+        let nu = unary.len() as u64;
+        st.merge(ctx.run_indexed("value-patterns", nu * 4 * N_PATTERNS as u64 + 5 * 3 * (N_PATTERNS * N_PATTERNS) as u64, None, |i| {
+            if i < nu * 4 * N_PATTERNS as u64 {
+                let pat = (i % N_PATTERNS as u64) as usize;
+                let d = &shapes[((i / N_PATTERNS as u64) % 4) as usize];
+                let mut op = unary[(i / N_PATTERNS as u64 / 4) as usize].clone();
+                if let Reshape(_) = op {
+                    op = Reshape(vec![numel(d)]);
+                }
+                if let Sum(k) = op {
+                    if k > d.len() {
+                        return None;
+                    }
+                }
+                let vals = pattern_vals(pat, numel(d), i);
+                let out_n = match &op {
+                    Sum(k) => numel(&d[..d.len() - k]),
+                    _ => numel(d),
+                };
+                Some(GradCase { op, leaves: vec![LeafSpec { dims: d.clone(), vals, tracked: true }], seed: Some(distinct_seed(out_n)), uses: 1 })
+            } else {
+                let j = i - nu * 4 * N_PATTERNS as u64;
+                let (pa, pb) = ((j % N_PATTERNS as u64) as usize, ((j / N_PATTERNS as u64) % N_PATTERNS as u64) as usize);
+                let k = j / (N_PATTERNS * N_PATTERNS) as u64;
+                let opi = (k % 5) as usize;
+                let tri = (k / 5) as usize;
+                let (a, b): (Vec<usize>, Vec<usize>) = (vec![2, 1, 3], vec![2, 3]);
+                let mut c = ew_case(&(a, b), opi, tri, true);
+                c.leaves[0].vals = pattern_vals(pa, 6, j);
+                c.leaves[1].vals = pattern_vals(pb, 6, j + 1);
+                if opi == 3 && c.leaves[1].vals.iter().any(|v| *v == 0.0) {
+                    return None;
+                }
+                Some(c)
+            }
+        }));
+        let nb = BOUNDARY_SIZES.len() as u64;
+        let bops = [Exp, Sigmoid, Softmax, Relu, Powf(3.0), Sum(1), Sum(2), Neg];
+        st.merge(ctx.run_indexed("boundary-sizes", nb * bops.len() as u64 * 2 + nb * 4 * 2, None, |i| {
+            if i < nb * bops.len() as u64 * 2 {
+                let n = BOUNDARY_SIZES[(i % nb) as usize];
+                let op = bops[((i / nb) % bops.len() as u64) as usize].clone();
+                // the boundary length as the last dimension, or as the total count of a [k, n/k]-like shape
+                let d = if (i / nb / bops.len() as u64) == 0 { vec![n] } else { vec![3, n] };
+                let vals = gen_vals(i, numel(&d), vkind_for(&op));
+                let out_n = match &op {
+                    Sum(k) => numel(&d[..d.len().saturating_sub(*k)]).max(1),
+                    _ => numel(&d),
+                };
+                if let Sum(k) = &op {
+                    if *k > d.len() {
+                        return None;
+                    }
+                }
+                Some(GradCase { op, leaves: vec![LeafSpec { dims: d, vals, tracked: true }], seed: Some(gen_vals(i + 5, out_n, VKind::Int)), uses: 1 })
+            } else {
+                let j = i - nb * bops.len() as u64 * 2;
+                let n = BOUNDARY_SIZES[(j % nb) as usize];
+                let opi = ((j / nb) % 4) as usize;
+                let (a, b) = if (j / nb / 4) == 0 { (vec![2, n], vec![n]) } else { (vec![n, 1], vec![n, 3]) };
+                let mut c = ew_case(&(a.clone(), b.clone()), opi, 2, true);
+                c.seed = Some(gen_vals(j, numel(&broadcast_dims(&a, &b).unwrap()), VKind::Int));
+                Some(c)
+            }
+        }));
+        // two passes over the same operation: accumulation into an existing gradient, lengths around block sizes
+        st.merge(ctx.run_indexed("boundary-sizes-two-uses", nb * 3, None, |i| {
+            let n = BOUNDARY_SIZES[(i % nb) as usize];
+            let op = [Mul, Add, Sub][(i / nb) as usize].clone();
+            Some(GradCase { op, leaves: vec![LeafSpec { dims: vec![n], vals: gen_vals(i, n, VKind::Int), tracked: true }, LeafSpec { dims: vec![n], vals: gen_vals(i + 9, n, VKind::Int), tracked: true }], seed: Some(gen_vals(i + 3, n, VKind::Int)), uses: 2 })
+        }));
+    }
     // matmul
     let cfgs = matmul_cfgs(&mm_sizes(t), true, 2, 3);
     st.merge(ctx.run_indexed("matmul-configurations", cfgs.len() as u64 * 7, None, |i| mm_case(&cfgs[(i / 7) as usize], (i % 7) as usize)));
